@@ -746,6 +746,32 @@ func intervalOf(fs []Fact, term string) (lo, hi int) {
 			}
 		}
 	}
+	// a value excluded at an end of the interval shrinks it (x >= 1, x != 1: x >= 2)
+	for changed := true; changed; {
+		changed = false
+		for _, f := range fs {
+			if f.Op != "NE" {
+				continue
+			}
+			c, ok := 0, false
+			if termEq(f.A, term) {
+				c, ok = ci(f.B)
+			} else if termEq(f.B, term) {
+				c, ok = ci(f.A)
+			}
+			if !ok {
+				continue
+			}
+			if c == lo && lo > -inf {
+				lo++
+				changed = true
+			}
+			if c == hi && hi < inf {
+				hi--
+				changed = true
+			}
+		}
+	}
 	return
 }
 
